@@ -7,6 +7,7 @@ import (
 	"path/filepath"
 	"sort"
 	"strings"
+	"sync"
 	"time"
 
 	"golang.org/x/tools/go/packages"
@@ -192,6 +193,8 @@ func runHarness(spec *HarnessSpec) (res *HarnessResult) {
 	return
 }
 
+var dumpN int
+
 func (e *Engine) solve(res *HarnessResult) {
 	spec := e.spec
 	timeout := time.Duration(spec.TimeoutS) * time.Second
@@ -212,45 +215,46 @@ func (e *Engine) solve(res *HarnessResult) {
 		var s *Solver
 		var err error
 		if logw != nil {
-			s, err = StartSolver(solverName, logw)
+			s, err = StartSolver(solverName, logw, timeout)
 		} else {
-			s, err = StartSolver(solverName, nil)
+			s, err = StartSolver(solverName, nil, timeout)
 		}
 		if err != nil {
 			panic(err)
 		}
 		return s, NewPrinter(), 0
 	}
-	s, _, _ := start()
-	defer func() { s.Close() }()
+	par := spec.Par
+	if par <= 0 {
+		par = 1
+	}
+	var mu sync.Mutex
 	totalT := time.Duration(0)
 	totalQ := 0
-	account := func() {
-		totalT += s.Time
-		totalQ += s.Querys
-		s.Time, s.Querys = 0, 0
-	}
-	restart := func() {
-		account()
-		s.Kill()
-		s, _, _ = start()
-	}
 	// Every query is a self-contained script after (reset): z3 then uses its
 	// tactic-based solver (bit-blasting) instead of the slower incremental core.
-	query := func(ob *Obligation, cond *Term) (string, map[string]string, float64) {
+	type worker struct{ s *Solver }
+	pool := make(chan *worker, par)
+	for i := 0; i < par; i++ {
+		pool <- &worker{}
+	}
+	query := func(nassume int, cond *Term) (string, map[string]string, float64) {
+		w := <-pool
+		defer func() { pool <- w }()
 		t0 := time.Now()
-		if s.dead {
-			restart()
+		if w.s == nil || w.s.dead {
+			w.s, _, _ = start()
 		}
+		s := w.s
 		pr := NewPrinter()
 		var sb strings.Builder
 		sb.WriteString("(reset)\n")
-		if solverName == "cvc5" {
+		if strings.HasPrefix(solverName, "cvc5") {
 			sb.WriteString("(set-logic ALL)\n")
 		} else {
 			sb.WriteString("(set-option :produce-models true)\n")
 		}
-		for k := 0; k < ob.NAssume; k++ {
+		for k := 0; k < nassume; k++ {
 			a := e.assumptions[k]
 			pr.Define(a)
 			sb.WriteString(pr.Flush())
@@ -259,83 +263,150 @@ func (e *Engine) solve(res *HarnessResult) {
 		pr.Define(cond)
 		sb.WriteString(pr.Flush())
 		fmt.Fprintf(&sb, "(assert %s)\n", pr.ref(cond))
-		if err := s.Exec(sb.String()); err != nil {
-			return "error: " + err.Error(), nil, time.Since(t0).Seconds()
+		if dd := os.Getenv("GOSMT_DUMPDIR"); dd != "" {
+			mu.Lock()
+			dumpN++
+			os.WriteFile(filepath.Join(dd, fmt.Sprintf("q%03d.smt2", dumpN)), []byte(strings.Replace(sb.String(), "(reset)\n", "", 1)+"(check-sat)\n"), 0o644)
+			mu.Unlock()
 		}
-		v := s.CheckSat(timeout)
+		var v string
 		var model map[string]string
-		if v == "sat" {
-			model = e.readModel(s, pr)
+		err := s.Exec(sb.String())
+		if err != nil {
+			// solver died (killed, out of memory): restart once and retry
+			s.Kill()
+			w.s, _, _ = start()
+			s = w.s
+			err = s.Exec(sb.String())
 		}
+		if err != nil {
+			v = "error: " + err.Error()
+		} else {
+			v = s.CheckSat(timeout)
+			if v == "sat" {
+				model = e.readModel(s, pr)
+			}
+		}
+		mu.Lock()
+		totalT += s.Time
+		totalQ += s.Querys
+		s.Time, s.Querys = 0, 0
+		mu.Unlock()
 		return v, model, time.Since(t0).Seconds()
 	}
+	defer func() {
+		close(pool)
+		for w := range pool {
+			if w.s != nil {
+				w.s.Close()
+			}
+		}
+	}()
 
-	nodes := 0
 	var conds []*Term
 	for _, ob := range e.obligations {
 		conds = append(conds, ob.Cond)
 	}
-	nodes = termSize(append(conds, e.assumptions...)...)
-	res.Nodes = nodes
+	res.Nodes = termSize(append(conds, e.assumptions...)...)
 
-	// 1. group query over all non-reach obligations: OR_i (prefix_i AND cond_i)
-	var group []*Term
-	var checkObs []*Obligation
-	for _, ob := range e.obligations {
-		if ob.Kind == "reach" {
-			continue
-		}
-		checkObs = append(checkObs, ob)
-	}
-	groupUnsat := false
-	if len(checkObs) > 1 {
-		// prefix conjunctions
+	// 1. group query over the non-assert obligations (panic sites, unwinding
+	// assertions, blocking): OR_i (prefix_i AND cond_i); asserts (and, if the
+	// group is not unsat, everything) are queried individually in parallel.
+	groupOf := func(obs []*Obligation) *Term {
+		var group []*Term
 		pre := tTrue
 		k := 0
-		for _, ob := range checkObs {
+		for _, ob := range obs {
 			for ; k < ob.NAssume; k++ {
 				pre = And(pre, e.assumptions[k])
 			}
 			group = append(group, And(pre, ob.Cond))
 		}
-		all := Or(group...)
-		fake := &Obligation{NAssume: 0}
-		v, _, _ := query(fake, all)
-		if v == "unsat" {
-			groupUnsat = true
+		return Or(group...)
+	}
+	var side, asserts []*Obligation
+	for _, ob := range e.obligations {
+		switch ob.Kind {
+		case "reach":
+		case "assert":
+			asserts = append(asserts, ob)
+		default:
+			side = append(side, ob)
 		}
 	}
-	status := "ok"
+	results := make([]ObResult, len(e.obligations))
+	index := map[*Obligation]int{}
+	for i, ob := range e.obligations {
+		index[ob] = i
+		results[i] = ObResult{Label: ob.Label, Kind: ob.Kind, Pos: ob.Pos, Fn: ob.Fn}
+	}
+	var wg sync.WaitGroup
+	single := func(ob *Obligation) {
+		wg.Add(1)
+		go func() {
+			defer wg.Done()
+			v, m, t := query(ob.NAssume, ob.Cond)
+			r := &results[index[ob]]
+			r.Verdict, r.TimeS, r.Model = v, t, m
+		}()
+	}
+	groupRun := func(obs []*Obligation, fallbackAll bool) {
+		if len(obs) == 0 {
+			return
+		}
+		if len(obs) == 1 {
+			single(obs[0])
+			return
+		}
+		wg.Add(1)
+		go func() {
+			defer wg.Done()
+			v, _, t := query(0, groupOf(obs))
+			if v == "unsat" {
+				for _, ob := range obs {
+					results[index[ob]].Verdict = "unsat"
+					results[index[ob]].TimeS = t / float64(len(obs))
+				}
+				return
+			}
+			for _, ob := range obs {
+				single(ob)
+			}
+		}()
+	}
+	groupRun(side, true)
+	if spec.GroupAsserts {
+		groupRun(asserts, true)
+	} else {
+		for _, ob := range asserts {
+			single(ob)
+		}
+	}
 	for _, ob := range e.obligations {
-		r := ObResult{Label: ob.Label, Kind: ob.Kind, Pos: ob.Pos, Fn: ob.Fn}
+		if ob.Kind == "reach" {
+			single(ob)
+		}
+	}
+	wg.Wait()
+	status := "ok"
+	for i, ob := range e.obligations {
+		r := &results[i]
 		switch {
 		case ob.Kind == "reach":
-			v, _, t := query(ob, ob.Cond)
-			r.Verdict, r.TimeS = v, t
-			if v == "unsat" {
+			if r.Verdict == "unsat" {
 				r.Verdict = "unsat (VACUOUS: not reachable)"
-				if status == "ok" {
-					status = "inconclusive"
-				}
-			} else if v != "sat" {
-				if status == "ok" {
-					status = "inconclusive"
-				}
 			}
-		case groupUnsat:
-			r.Verdict = "unsat"
-		default:
-			v, m, t := query(ob, ob.Cond)
-			r.Verdict, r.TimeS, r.Model = v, t, m
-			if v == "sat" {
-				status = "violation"
-			} else if v != "unsat" && status == "ok" {
+			if r.Verdict != "sat" && status == "ok" {
 				status = "inconclusive"
 			}
+			r.Model = nil
+		case r.Verdict == "sat":
+			status = "violation"
+		case r.Verdict != "unsat" && status == "ok":
+			status = "inconclusive"
 		}
-		res.Obs = append(res.Obs, r)
 	}
-	account()
+	res.Obs = results
 	res.Queries = totalQ
 	res.SolverS = totalT.Seconds()
 	res.Status = status
